@@ -1,7 +1,9 @@
 """C06 — throughput counts every operation exactly once, however samples are batched (DESIGN.md section 4, C06).
 
 Roles are derived from data flow, not from the spelling of locals / attributes of the calculator: the per-task state class is the class whose instances the calculator stores under the
-task key; the running count is the local handed to the state's finishing routine; the attributes of the state (carried total, pending samples, interval, start, sample type, has-value
+task key; the running count is the local handed to the state's finishing routine - or, when no local plays that part, the attribute of the state that the operations of each sample are
+added to (by a statement of the routine or inside a state method the sample is handed to) and that the finishing routine moves into the carried total; a state method called per
+sample IS the updates it delegates to (add_sample -> self.update_interval / self.maybe_update_sample_type); the attributes of the state (carried total, pending samples, interval, start, sample type, has-value
 flag) are the ones those values flow into. The small methods of the state class are decided on VALUES: their bodies are interpreted over representative field values
 (sa.minieval on the extracted statements, never a call into the repository). The same interpreter decides what `calculate()` hands to the two per-task routines (both stubbed):
 grouping by task, merge of the carried-over samples and order of the batch are decided on the VALUE of that batch for representative streams, whatever spells them (chain + sort,
@@ -884,6 +886,55 @@ def _self_reads(fn):
     return {x.attr for x in ast.walk(fn) if is_self_attr(x) and isinstance(x.ctx, ast.Load)}
 
 
+def _state_closure(sm, fn):
+    """methods of the per-task state class reachable from method fn through self.m(...) calls (fn included): an extracted `add_sample` IS the updates it delegates to."""
+    seen, todo = [], [fn]
+    while todo:
+        f = todo.pop()
+        if any(f is x for x in seen):
+            continue
+        seen.append(f)
+        for n in walk_body(f):
+            if isinstance(n, ast.Call) and is_self_attr(n.func) and n.func.attr in sm:
+                todo.append(sm[n.func.attr])
+    return seen
+
+
+def _self_writes(fn, attr):
+    """assignments (plain / augmented) of self.<attr> in method fn."""
+    return [n for n in walk_body(fn) if isinstance(n, (ast.Assign, ast.AugAssign)) and any(is_self_attr(x, attr) and isinstance(x.ctx, ast.Store) for t in (n.targets if isinstance(n, ast.Assign) else [n.target])
+                                                                                         for x in ast.walk(t))]
+
+
+def _field_flow(sm, fn, p, whole, field, depth=0):
+    """[(method, attribute)]: the attributes of self that receive a value computed from <sample>.<field> when state method `fn` is called with the sample itself (whole) or with the
+    value of that field as its parameter p - assigned by fn, or by a state method fn hands the sample / the value on to (self.m(...)): roles follow the data, not the method that
+    happens to be called from the calculator."""
+    defs = local_defs(fn)
+
+    def carries(e):
+        r = source.inline_node(e, defs)
+        if whole:
+            return any(isinstance(x, ast.Attribute) and x.attr == field and isinstance(x.value, ast.Name) and x.value.id == p for x in ast.walk(r))
+        return any(isinstance(x, ast.Name) and x.id == p for x in ast.walk(r))
+
+    out = []
+    for n in walk_body(fn):
+        if isinstance(n, (ast.Assign, ast.AugAssign)) and carries(n.value):
+            for t in (n.targets if isinstance(n, ast.Assign) else [n.target]):
+                if is_self_attr(t):
+                    out.append((fn, t.attr))
+        elif isinstance(n, ast.Call) and is_self_attr(n.func) and n.func.attr in sm and sm[n.func.attr] is not fn and depth < 4:
+            m2 = sm[n.func.attr]
+            for p2, a_ in source.bind_args(n, m2).items():
+                r = source.inline_node(a_, defs)
+                if whole and isinstance(r, ast.Name) and r.id == p:
+                    out += _field_flow(sm, m2, p2, True, field, depth + 1)
+                elif carries(a_):
+                    out += _field_flow(sm, m2, p2, False, field, depth + 1)
+    return out
+
+
 class _Task(Record):
     """stands for a task: hashable (by identity), has a name, prints as its name."""
 
@@ -1508,20 +1559,68 @@ def run(chk):
     loops = [n for n in walk_body(ctt) if sample_loop(n)]
     if not loops:
         raise AnchorMissing(f"sample loop over the batch parameter in {ctt.name}")
+
+    def is_field(e, var, field):
+        return isinstance(e, ast.Attribute) and e.attr == field and isinstance(e.value, ast.Name) and e.value.id == var
+
     augs = {n.target.id for n in walk_body(ctt) if isinstance(n, ast.AugAssign) and isinstance(n.target, ast.Name)}
     from_state = {t.id for n in walk_body(ctt) if isinstance(n, ast.Assign) and isinstance(n.value, ast.Attribute) and isinstance(n.value.value, ast.Name) and n.value.value.id == stats_var
                   for t in n.targets if isinstance(t, ast.Name)}
     handed = [(c, a_.id) for c in stat_calls for a_ in list(c.args) + [k.value for k in c.keywords] if isinstance(a_, ast.Name) and a_.id in (augs | from_state) and a_.id not in cparams]
     cvars = {nm for _, nm in handed}
-    if len(cvars) != 1:
-        raise AnchorMissing(f"the running count of {ctt.name} (a local that starts from the state, grows per sample and is handed to the state's finishing routine)")
-    cvar = cvars.pop()
-    fb_names = {c.func.attr for c, _ in handed}
-    if len(fb_names) != 1:
-        raise AnchorMissing("the one bucket-finishing routine of the per-task state (receives the running count)")
-    fb = sm[fb_names.pop()]
-    fin_calls = [c for c, _ in handed]
-    L = next((lp for lp in loops if any(isinstance(n, ast.AugAssign) and isinstance(n.target, ast.Name) and n.target.id == cvar for n in ast.walk(lp))), loops[0])
+    # The running count lives either in a LOCAL of the routine (cvar: starts from the state, grows per sample, is handed to the state's finishing routine) or in an ATTRIBUTE of the
+    # per-task state (C: the attribute the operations of each sample are added to - by a statement of the routine or inside a state method the sample is handed to - and which the
+    # finishing routine moves into the carried total). Both are located by what flows where.
+    cvar = C = None
+    add_sites = []
+    if len(cvars) > 1:
+        raise AnchorMissing(f"the running count of {ctt.name} (a local that starts from the state, grows per sample and is handed to the state's finishing routine; candidates: {sorted(cvars)})")
+    if cvars:
+        cvar = cvars.pop()
+        fb_names = {c.func.attr for c, _ in handed}
+        if len(fb_names) != 1:
+            raise AnchorMissing("the one bucket-finishing routine of the per-task state (receives the running count)")
+        fb = sm[fb_names.pop()]
+        fin_calls = [c for c, _ in handed]
+        L = next((lp for lp in loops if any(isinstance(n, ast.AugAssign) and isinstance(n.target, ast.Name) and n.target.id == cvar for n in ast.walk(lp))), loops[0])
+    else:
+        ctt_defs = {k_: v_ for k_, v_ in local_defs(ctt).items() if k_ != stats_var}
+        ops_flow = []  # (site, loop, attribute of the state that receives <sample>.total_ops there)
+        for lp in loops:
+            sv_ = sample_loop(lp)[1]
+            for n in ast.walk(lp):
+                if on_stats(n):
+                    fn = sm[n.func.attr]
+                    for p, a_ in source.bind_args(n, fn).items():
+                        r = source.inline_node(a_, ctt_defs)
+                        whole = isinstance(r, ast.Name) and r.id == sv_
+                        if whole or is_field(r, sv_, _OPS):
+                            ops_flow += [(n, lp, attr) for _, attr in _field_flow(sm, fn, p, whole, _OPS)]
+                elif isinstance(n, (ast.Assign, ast.AugAssign)):
+                    tg = [t for t in (n.targets if isinstance(n, ast.Assign) else [n.target]) if isinstance(t, ast.Attribute) and isinstance(t.value, ast.Name) and t.value.id == stats_var]
+                    if tg and any(is_field(x, sv_, _OPS) for x in ast.walk(source.inline_node(n.value, ctt_defs))):
+                        ops_flow += [(n, lp, t.attr) for t in tg]
+        c_attrs = {attr for _, _, attr in ops_flow}
+        if len(c_attrs) != 1:
+            raise AnchorMissing(f"the running count of {ctt.name} (a local that starts from the state, grows per sample and is handed to the state's finishing routine, or the one attribute "
+                                f"of the per-task state the operations of each sample are added to; candidates: {sorted(c_attrs)})")
+        C = c_attrs.pop()
+        for n, _, _ in ops_flow:
+            if not any(n is x for x in add_sites):
+                add_sites.append(n)
+        L = ops_flow[0][1]
+
+        def moves_count(f_):
+            """attributes of self (other than the running count) that state method f_ assigns a value computed from the running count."""
+            fd = local_defs(f_)
+            return [t.attr for n in walk_body(f_) if isinstance(n, (ast.Assign, ast.AugAssign)) and any(is_self_attr(x, C) and isinstance(x.ctx, ast.Load) for x in ast.walk(source.inline_node(n.value, fd)))
+                    for t in (n.targets if isinstance(n, ast.Assign) else [n.target]) if is_self_attr(t) and t.attr != C]
+
+        fb_names = {c.func.attr for c in stat_calls if moves_count(sm[c.func.attr])}
+        if len(fb_names) != 1:
+            raise AnchorMissing(f"the one bucket-finishing routine of the per-task state (moves the running count <state>.{C} into the carried total; candidates: {sorted(fb_names)})")
+        fb = sm[fb_names.pop()]
+        fin_calls = [c for c in stat_calls if sm[c.func.attr] is fb]
     batch, svar = sample_loop(L)
     Lh = g.node_of(L)
 
@@ -1550,13 +1649,10 @@ def run(chk):
     mutated = {n.func.value.id for n in walk_body(ctt) if isinstance(n, ast.Call) and isinstance(n.func, ast.Attribute) and isinstance(n.func.value, ast.Name)
                and n.func.attr in ("append", "extend", "insert", "add", "update", "pop", "remove", "clear", "sort", "setdefault")}
     mutated |= {n.value.id for n in walk_body(ctt) if isinstance(n, ast.Subscript) and isinstance(n.ctx, (ast.Store, ast.Del)) and isinstance(n.value, ast.Name)}
-    keep = {stats_var, cvar, svar, batch} | sampled | mutated  # a local that is mutated after its definition is not the value it was defined with
+    keep = {stats_var, svar, batch} | ({cvar} if cvar is not None else set()) | sampled | mutated  # a local that is mutated after its definition is not the value it was defined with
 
     def res(e):
         return H.resolve(e, ctt, keep)
-
-    def is_field(e, var, field):
-        return isinstance(e, ast.Attribute) and e.attr == field and isinstance(e.value, ast.Name) and e.value.id == var
 
     # ---- emit sites -----------------------------------------------------------------------------------------------------------------------------------
     emits = _emits(H, ctt, keep)
@@ -1568,27 +1664,32 @@ def run(chk):
 
     # ---- roles of the state's methods and attributes ---------------------------------------------------------------------------------------------------
     def role_calls(field):
-        """calls of a state method in the loop that receive <sample>.<field> (or the sample itself, the method reading that field)."""
+        """[(call, parameter, [(method, attribute)])]: calls of a state method in the loop that receive <sample>.<field> (or the sample itself) together with the attributes of the state
+        that value flows into and the methods that assign them - the called method itself, or the ones it delegates to (`add_sample(sample)` calling `self.update_interval(...)`)."""
         out = []
         for c in stat_calls:
             if not in_loop(c):
                 continue
             fn = sm[c.func.attr]
-            if not _attrs_from_params(fn):
-                continue  # a method that stores nothing derived from its arguments (e.g. an expression helper that builds the emitted value) plays no updating role
             b = source.bind_args(c, fn)
             for p, a_ in b.items():
                 r = res(a_)
-                if is_field(r, svar, field) or (isinstance(r, ast.Name) and r.id == svar and any(isinstance(x, ast.Attribute) and x.attr == field and isinstance(x.value, ast.Name) and x.value.id == p for x in ast.walk(fn))):
-                    out.append((c, p))
+                whole = isinstance(r, ast.Name) and r.id == svar
+                if not (whole or is_field(r, svar, field)):
+                    continue
+                fl = _field_flow(sm, fn, p, whole, field)
+                if not fl and _attrs_from_params(fn) and (not whole or any(isinstance(x, ast.Attribute) and x.attr == field and isinstance(x.value, ast.Name) and x.value.id == p for x in ast.walk(fn))):
+                    # the value reaches the method and the method stores something derived from its arguments, but not by plain data flow (e.g. through a local bound twice)
+                    fl = [(fn, a_) for a_ in _attrs_from_params(fn)]
+                if fl:
+                    out.append((c, p, fl))
         return out
 
     ui_calls, mu_calls = role_calls(_ABS), role_calls(_STYPE)
-    if len({c.func.attr for c, _ in ui_calls}) != 1:
+    if len({c.func.attr for c, _, _ in ui_calls}) != 1:
         raise AnchorMissing("the state method that advances the elapsed interval (called per sample with the sample's absolute_time)")
-    if len({c.func.attr for c, _ in mu_calls}) != 1:
+    if len({c.func.attr for c, _, _ in mu_calls}) != 1:
         raise AnchorMissing("the state method that updates the per-task sample type (called per sample with the sample's sample_type)")
-    ui, mu = sm[ui_calls[0][0].func.attr], sm[mu_calls[0][0].func.attr]
 
     def uniq(cands, what, prefer=()):
         c = sorted(set(cands))
@@ -1602,12 +1703,27 @@ def run(chk):
     for nm_, f_ in sm.items():
         if len(params_of(f_)) == 1 and nm_ not in ("__init__", "__post_init__", "__repr__", "__str__"):
             readers |= _self_reads(f_)
-    I = uniq(_attrs_from_params(ui), "the interval attribute of the per-task state (assigned from the sample time)", readers)
-    T_ = uniq(_attrs_from_params(mu), "the sample-type attribute of the per-task state (assigned from the sample's type)", readers | {x.attr for e in emits for x in ast.walk(e.elts[2]) if isinstance(x, ast.Attribute)})
-    cnt_inits = [n for n in walk_body(ctt) if isinstance(n, ast.Assign) and any(isinstance(t, ast.Name) and t.id == cvar for t in n.targets)]
-    tot_c = [n.value.attr for n in cnt_inits if isinstance(n.value, ast.Attribute) and isinstance(n.value.value, ast.Name) and n.value.value.id == stats_var]
-    tot_c = tot_c or [a_ for a_, p in _attrs_from_params(fb).items()]
-    tot = uniq(tot_c, "the carried-total attribute of the per-task state (the running count starts from it / the finishing routine stores its argument in it)", readers)
+    ui_flow, mu_flow = [x for _, _, fl in ui_calls for x in fl], [x for _, _, fl in mu_calls for x in fl]
+    I = uniq([a_ for _, a_ in ui_flow], "the interval attribute of the per-task state (assigned from the sample time)", readers)
+    T_ = uniq([a_ for _, a_ in mu_flow], "the sample-type attribute of the per-task state (assigned from the sample's type)", readers | {x.attr for e in emits for x in ast.walk(e.elts[2]) if isinstance(x, ast.Attribute)})
+    # the method called from the routine (site) and the method that assigns the attribute (the same one unless the site method delegates: add_sample -> self.update_interval)
+    ui_site, mu_site = sm[ui_calls[0][0].func.attr], sm[mu_calls[0][0].func.attr]
+    ui_leaf, mu_leaf = {id(f_): f_ for f_, a_ in ui_flow if a_ == I}, {id(f_): f_ for f_, a_ in mu_flow if a_ == T_}
+    if len(ui_leaf) != 1:
+        raise AnchorMissing(f"the one state method that assigns <state>.{I} from the sample's absolute_time (candidates: {sorted(f_.name for f_ in ui_leaf.values())})")
+    if len(mu_leaf) != 1:
+        raise AnchorMissing(f"the one state method that assigns <state>.{T_} from the sample's sample_type (candidates: {sorted(f_.name for f_ in mu_leaf.values())})")
+    ui, mu = list(ui_leaf.values())[0], list(mu_leaf.values())[0]
+    ui_calls, mu_calls = [(c, p) for c, p, _ in ui_calls], [(c, p) for c, p, _ in mu_calls]
+    updaters = (fb, ui, mu, ui_site, mu_site)
+    if cvar is not None:
+        cnt_inits = [n for n in walk_body(ctt) if isinstance(n, ast.Assign) and any(isinstance(t, ast.Name) and t.id == cvar for t in n.targets)]
+        tot_c = [n.value.attr for n in cnt_inits if isinstance(n.value, ast.Attribute) and isinstance(n.value.value, ast.Name) and n.value.value.id == stats_var]
+        tot_c = tot_c or [a_ for a_, p in _attrs_from_params(fb).items()]
+    else:
+        cnt_inits = []
+        tot_c = moves_count(fb)
+    tot = uniq(tot_c, "the carried-total attribute of the per-task state (the running count starts from it / the finishing routine stores the running count in it)", readers)
     flags = [t.attr for f_ in sm.values() if f_.name not in ("__init__", "__post_init__") for n in walk_body(f_) if isinstance(n, ast.Assign) and isinstance(n.value, ast.Constant) and isinstance(n.value.value, bool)
              for t in n.targets if is_self_attr(t)]
     F = uniq(flags, "the has-a-value-for-this-type flag of the per-task state (set / cleared with boolean constants by its methods)", readers)
@@ -1624,7 +1740,7 @@ def run(chk):
         elif isinstance(n, ast.AugAssign) and isinstance(n.op, ast.Add) and isinstance(n.target, ast.Attribute) and isinstance(n.target.value, ast.Name) and n.target.value.id == stats_var \
                 and isinstance(n.value, (ast.List, ast.Tuple)) and len(n.value.elts) == 1:
             keep_sites.append((n, n.target.attr, n.value.elts[0]))
-        elif on_stats(n) and len(n.args) == 1 and sm[n.func.attr] not in (fb, ui, mu):
+        elif on_stats(n) and len(n.args) == 1 and sm[n.func.attr] not in updaters:
             fn = sm[n.func.attr]
             inner = [x for x in walk_body(fn) if isinstance(x, ast.Call) and isinstance(x.func, ast.Attribute) and x.func.attr == "append" and is_self_attr(x.func.value) and len(x.args) == 1
                      and isinstance(x.args[0], ast.Name) and x.args[0].id in params_of(fn)[1:]]
@@ -1665,7 +1781,7 @@ def run(chk):
             rec.fields[k_] = v_
         return rec
 
-    roles_ = {tot, U, I, S, T_, F}
+    roles_ = {tot, U, I, S, T_, F} | ({C} if C is not None else set())
 
     def variants(**over):
         """representative states: the fields named in `over` fixed, every other numeric field once as initialised and once 0, the flag (unless fixed) both ways."""
@@ -1704,36 +1820,117 @@ def run(chk):
              "one of {finish bucket(count), append sample to unprocessed}; carried total and unprocessed are written only by the finishing routine, together; "
              "unprocessed is merged into the next batch iff the task has state and is cleared once merged", 8,
              "any cut of the sample stream inside a bucket: operations are lost or counted twice, so throughput depends on batching")
-    if not cnt_inits:
-        raise AnchorMissing("initialisation of the running count")
-    ci = cnt_inits[0]
-    placed = len(cnt_inits) == 1 and g.dominated_by_nodes(Lh, [g.node_of(ci)]) and not in_loop(ci)
+    def run_site(n, env):
+        """interpret the statement of the routine that holds site n (its single-assignment locals resolved) on the values in env."""
+        st = source.enclosing_stmt(n)
+        if not isinstance(st, (ast.Expr, ast.Assign, ast.AugAssign)):
+            if isinstance(n, ast.Call):
+                return M.ev(res(n), env)  # a call inside the test of a compound statement: the call alone
+            raise CannotEval(f"`{short(st, 50)}`: not a plain statement")
+        fresh_st = ast.parse(u(st)).body[0]
+        fresh_st.value = res(st.value)
+        M.run([fresh_st], env)
 
-    def count_from_total():
-        """the initial value of the running count, evaluated on states with different carried totals (however it is read: attribute, getter, property, local)."""
-        e = res(ci.value)
-        for t0 in (7, 0, 42):
-            for r in variants(**{tot: t0, I: 2.5}):
-                r.fields[U] = [_sample(), _sample()]
-                got = M.ev(e, {stats_var: r, batch: [_sample(total_ops=3)], key_param: "t", "self": Record(**{A: {"t": r}})})
-                if got != t0:
-                    return False, f"`{short(ci, 60)}`: the count starts at {got!r} for a task whose carried total is {t0} ({show(r)})"
-        return True, short(ci, 60)
+    def one_sample_env(r, s):
+        env = {stats_var: r, batch: [s], key_param: "t", "self": Record(**{A: {"t": r}})}
+        env.update({nm_: s for nm_ in sampled})
+        return env
 
-    if placed:
-        _decide(chk, "O6.1", "count starts from the carried total", ci, count_from_total)
+    if cvar is not None:
+        if not cnt_inits:
+            raise AnchorMissing("initialisation of the running count")
+        ci = cnt_inits[0]
+        placed = len(cnt_inits) == 1 and g.dominated_by_nodes(Lh, [g.node_of(ci)]) and not in_loop(ci)
+
+        def count_from_total():
+            """the initial value of the running count, evaluated on states with different carried totals (however it is read: attribute, getter, property, local)."""
+            e = res(ci.value)
+            for t0 in (7, 0, 42):
+                for r in variants(**{tot: t0, I: 2.5}):
+                    r.fields[U] = [_sample(), _sample()]
+                    got = M.ev(e, {stats_var: r, batch: [_sample(total_ops=3)], key_param: "t", "self": Record(**{A: {"t": r}})})
+                    if got != t0:
+                        return False, f"`{short(ci, 60)}`: the count starts at {got!r} for a task whose carried total is {t0} ({show(r)})"
+            return True, short(ci, 60)
+
+        if placed:
+            _decide(chk, "O6.1", "count starts from the carried total", ci, count_from_total)
+        else:
+            chk.ob("O6.1", "count starts from the carried total", False, ci, f"{len(cnt_inits)} assignment(s) of `{cvar}`; `{short(ci, 60)}` does not run exactly once before the sample loop")
+        adds = [n for n in walk_body(ctt) if isinstance(n, ast.AugAssign) and isinstance(n.target, ast.Name) and n.target.id == cvar]
+        ok = len(adds) == 1 and isinstance(adds[0].op, ast.Add) and is_field(res(adds[0].value), svar, _OPS) and source.enclosing(adds[0], (ast.For, ast.While)) is L \
+            and _every_iteration_passes(g, L, [g.node_of(adds[0])])
+        if adds:
+            chk.ob("O6.1", "count += sample.total_ops once per iteration, unconditionally", ok, adds[0], f"{len(adds)} update(s) of {cvar}: {[short(a, 50) for a in adds]}")
+        else:
+            chk.unknown("O6.1", f"no augmented update of the running count `{cvar}` in {ctt.name}: how the operations of a sample are added was not recognised", L)
+        other_cnt = [n for n in walk_body(ctt) if isinstance(n, ast.Assign) and any(isinstance(t, ast.Name) and t.id == cvar for t in n.targets) and n not in cnt_inits[:1]]
+        other_cnt += [n for n in walk_body(ctt) if isinstance(n, (ast.For, ast.comprehension, ast.NamedExpr)) and any(isinstance(x, ast.Name) and x.id == cvar for x in ast.walk(n.target))]
+        chk.ob("O6.1", "no other writer of the running count", not other_cnt, other_cnt[0] if other_cnt else ctt, "")
     else:
-        chk.ob("O6.1", "count starts from the carried total", False, ci, f"{len(cnt_inits)} assignment(s) of `{cvar}`; `{short(ci, 60)}` does not run exactly once before the sample loop")
-    adds = [n for n in walk_body(ctt) if isinstance(n, ast.AugAssign) and isinstance(n.target, ast.Name) and n.target.id == cvar]
-    ok = len(adds) == 1 and isinstance(adds[0].op, ast.Add) and is_field(res(adds[0].value), svar, _OPS) and source.enclosing(adds[0], (ast.For, ast.While)) is L \
-        and _every_iteration_passes(g, L, [g.node_of(adds[0])])
-    if adds:
-        chk.ob("O6.1", "count += sample.total_ops once per iteration, unconditionally", ok, adds[0], f"{len(adds)} update(s) of {cvar}: {[short(a, 50) for a in adds]}")
-    else:
-        chk.unknown("O6.1", f"no augmented update of the running count `{cvar}` in {ctt.name}: how the operations of a sample are added was not recognised", L)
-    other_cnt = [n for n in walk_body(ctt) if isinstance(n, ast.Assign) and any(isinstance(t, ast.Name) and t.id == cvar for t in n.targets) and n not in cnt_inits[:1]]
-    other_cnt += [n for n in walk_body(ctt) if isinstance(n, (ast.For, ast.comprehension, ast.NamedExpr)) and any(isinstance(x, ast.Name) and x.id == cvar for x in ast.walk(n.target))]
-    chk.ob("O6.1", "no other writer of the running count", not other_cnt, other_cnt[0] if other_cnt else ctt, "")
+        # The running count is the attribute C of the per-task state. Where it is set and where it grows are located by data flow (statements of the routine that assign <state>.C, or
+        # calls of state methods that - themselves or through self.m(...) - assign it); WHAT those places do is decided on values: the statement is interpreted on representative states.
+        def writes_count(n):
+            if isinstance(n, (ast.Assign, ast.AugAssign)):
+                return any(isinstance(t, ast.Attribute) and t.attr == C and isinstance(t.value, ast.Name) and t.value.id == stats_var for t in (n.targets if isinstance(n, ast.Assign) else [n.target]))
+            return on_stats(n) and any(_self_writes(f_, C) for f_ in _state_closure(sm, sm[n.func.attr]))
+
+        cnt_sites = [n for n in walk_body(ctt) if writes_count(n) and not any(n is x for x in add_sites) and not any(n is x for x in fin_calls)]
+        if not cnt_sites:
+            raise AnchorMissing(f"initialisation of the running count (<state>.{C}) in {ctt.name}")
+        placed = all(not in_loop(n) for n in cnt_sites) and g.dominated_by_nodes(Lh, [g.node_of(n) for n in cnt_sites])
+
+        def count_from_total(ci):
+            """the statement that sets the running count before the loop, interpreted on states with different carried totals and a stale count left over from the previous batch."""
+            def f():
+                for t0 in (7, 0, 42):
+                    for r in variants(**{tot: t0, I: 2.5}):
+                        r.fields[U] = [_sample(), _sample()]
+                        r.fields[C] = 99
+                        run_site(ci, one_sample_env(r, _sample(total_ops=3)))
+                        got = r.fields.get(C)
+                        if got != t0:
+                            return False, f"`{short(ci, 60)}`: the count ({C}) starts at {got!r} for a task whose carried total is {t0} ({show(r)})"
+                return True, f"{short(ci, 60)}: <state>.{C} == <state>.{tot} afterwards on all representative states"
+            return f
+
+        if placed:
+            for ci in cnt_sites:
+                _decide(chk, "O6.1", "count starts from the carried total", ci, count_from_total(ci))
+        else:
+            chk.ob("O6.1", "count starts from the carried total", False, cnt_sites[0],
+                   f"{len(cnt_sites)} place(s) set <state>.{C} besides the per-sample update: {[short(n, 50) for n in cnt_sites]}; the count is not set on every way to the sample loop, or is set again inside it")
+        a_nodes = [g.node_of(a_) for a_ in add_sites]
+        twice = any(x is not y and g.path_exists(x, y, avoid=[Lh]) for x in a_nodes for y in a_nodes)
+        placed_add = all(source.enclosing(a_, (ast.For, ast.While)) is L for a_ in add_sites) and _every_iteration_passes(g, L, a_nodes) and not twice
+
+        def adds_ops(site):
+            def f():
+                for c0, k_ in ((7, 5), (0, 0), (42, 100000), (3, 0), (0, 1)):
+                    for cur, new_ in itertools.product((0, 1), (0, 1)):
+                        for r in variants(**{tot: 1, I: 2.5, T_: cur}):
+                            r.fields[C] = c0
+                            before = show(r)
+                            run_site(site, one_sample_env(r, _sample(total_ops=k_, sample_type=new_)))
+                            if r.fields.get(C) != c0 + k_:
+                                return False, f"`{short(site, 50)}` with a sample of {k_} operations (sample type {new_}) on {before}: the count ({C}) is {r.fields.get(C)!r} afterwards, expected {c0 + k_}"
+                return True, f"`{short(site, 50)}`: <state>.{C} grows by exactly the sample's total_ops on all representative states and samples"
+            return f
+
+        if placed_add:
+            for a_ in add_sites:
+                _decide(chk, "O6.1", "count += sample.total_ops once per iteration, unconditionally", a_, adds_ops(a_))
+        else:
+            chk.ob("O6.1", "count += sample.total_ops once per iteration, unconditionally", False, add_sites[0],
+                   f"{len(add_sites)} place(s) add the sample's operations to <state>.{C}: {[short(a_, 50) for a_ in add_sites]}; not exactly one of them runs on every way through an iteration of the sample loop")
+        allowed = [f_ for n in cnt_sites + add_sites if on_stats(n) for f_ in _state_closure(sm, sm[n.func.attr])] + [fb]
+        other_cnt = [n for n in ast.walk(drv.tree) if isinstance(n, (ast.Assign, ast.AugAssign)) and source.enclosing_class(n) in (TS, TC)
+                     and any(isinstance(x, ast.Attribute) and x.attr == C and isinstance(x.ctx, ast.Store) for t in (n.targets if isinstance(n, ast.Assign) else [n.target]) for x in ast.walk(t))
+                     and not any(n is x for x in cnt_sites + add_sites)
+                     and not (source.enclosing_func(n) is not None and ((source.enclosing_func(n).name in ("__init__", "__post_init__") and source.enclosing_class(n) is TS)
+                                                                        or any(source.enclosing_func(n) is f_ for f_ in allowed)))]
+        chk.ob("O6.1", "no other writer of the running count", not other_cnt, other_cnt[0] if other_cnt else ctt,
+               "" if not other_cnt else f"`{short(other_cnt[0], 60)}` writes <state>.{C} besides its initialisation before the loop and the per-sample update")
     # iteration ends in exactly one of finish / keep
     fin_in = [c for c in fin_calls if in_loop(c)]
     keep_in = [k for k in keep_sites if in_loop(k[0])]
@@ -1743,7 +1940,7 @@ def run(chk):
     # kept there - "no keep site" is then "not recognised", not "the sample is lost"
     maybe_keep = []
     if not ok and not keep_in:
-        known_ = {id(c) for c in fin_in} | {id(c) for c in stat_calls if sm[c.func.attr] in (fb, ui, mu)}
+        known_ = {id(c) for c in fin_in} | {id(c) for c in stat_calls if sm[c.func.attr] in updaters}
         for n in ast.walk(L):
             if isinstance(n, ast.Call) and id(n) not in known_ and not is_logging_call(n):
                 args_ = list(n.args) + [k.value for k in n.keywords]
@@ -1761,12 +1958,33 @@ def run(chk):
         r = res(arg)
         chk.ob("O6.1", "the kept element is the current sample", isinstance(r, ast.Name) and r.id == svar, c, short(c, 60))
     for c in fin_calls:
-        b = source.bind_args(c, fb)
-        ok = len(b) == 1 and len(c.args) + len(c.keywords) == 1 and all(isinstance(a_, ast.Name) and a_.id == cvar for a_ in b.values())
-        chk.ob("O6.1", "bucket finished with the running count", ok, c, short(c, 60))
-    # finish writes carried total := argument and unprocessed := []  (decided on values)
-    if len(params_of(fb)) != 2:
+        if cvar is not None:
+            b = source.bind_args(c, fb)
+            ok = len(b) == 1 and len(c.args) + len(c.keywords) == 1 and all(isinstance(a_, ast.Name) and a_.id == cvar for a_ in b.values())
+            chk.ob("O6.1", "bucket finished with the running count", ok, c, short(c, 60))
+        else:
+            def finished_with_count(c=c):
+                """the call site interpreted on states whose running count differs from the carried total: the carried total is the running count afterwards."""
+                for t0, cnt in ((7, 42), (7, 7), (0, 0), (0, 5)):
+                    for r in variants(**{tot: t0, I: 2.5}):
+                        r.fields[C] = cnt
+                        r.fields[U] = [_sample()]
+                        run_site(c, one_sample_env(r, _sample()))
+                        if r.fields.get(tot) != cnt:
+                            return False, f"`{short(c, 50)}` with carried total {t0} and running count {cnt}: the carried total is {r.fields.get(tot)!r} afterwards"
+                return True, f"{short(c, 60)}: <state>.{tot} == <state>.{C} afterwards"
+
+            _decide(chk, "O6.1", "bucket finished with the running count", c, finished_with_count)
+    # finish writes carried total := running count and unprocessed := []  (decided on values)
+    if cvar is not None and len(params_of(fb)) != 2:
         raise AnchorMissing(f"{TS.name}.{fb.name}(self, <new total>)")
+
+    def do_finish(r, arg):
+        """the finishing routine interpreted on state r with running count `arg` (its argument, or the state's own count attribute)."""
+        if C is None:
+            return M.call(r, fb.name, arg)
+        r.fields[C] = arg
+        return M.call(r, fb.name)
 
     def after_finish(field, expect):
         """the finishing routine, interpreted on representative states (growing / unchanged / zero total, flag either way, with and without elapsed time, with pending samples)."""
@@ -1774,27 +1992,33 @@ def run(chk):
             for t0, arg in ((7, 42), (7, 7), (0, 0), (0, 5)):
                 for r in variants(**{tot: t0, I: 2.5}) + variants(**{tot: t0, I: 0}):
                     r.fields[U] = ["s1", "s2"]
+                    if C is not None:
+                        r.fields[C] = arg
                     before = show(r)
-                    M.call(r, fb.name, arg)
+                    do_finish(r, arg)
                     want = arg if expect is _NOTHING else expect
                     if r.fields.get(field) != want:
-                        return False, f"{fb.name}({arg}) on {before}: {field} is {r.fields.get(field)!r} afterwards, expected {want!r}"
-            return True, f"{field} == {'the argument' if expect is _NOTHING else repr(expect)} after {fb.name}(n) on all representative states"
+                        return False, f"{fb.name}({arg if C is None else ''}) on {before}{'' if C is None else f' with running count {arg}'}: {field} is {r.fields.get(field)!r} afterwards, expected {want!r}"
+            return True, f"{field} == {'the running count' if expect is _NOTHING else repr(expect)} after {fb.name}({'n' if C is None else ''}) on all representative states"
         return f
 
     _decide(chk, "O6.1", "finish: carried total := argument", fb, after_finish(tot, _NOTHING))
     _decide(chk, "O6.1", "finish: unprocessed := []", fb, after_finish(U, []))
+    if C is not None:
+        # the count keeps running after a bucket has been closed inside a batch: the next bucket of the same batch continues from it
+        _decide(chk, "O6.1", "finish: the running count continues from the new carried total", fb, after_finish(C, _NOTHING))
     # a state method that changes nothing but empties the pending list (decided on values), called before the loop on every path, is the reset-once-merged in another spelling
     def is_reset(fn):
         try:
             r = fresh(**{tot: 7, U: ["s1"], I: 2.5})
             before = dict(r.fields)
             M.call(r, fn.name)
-            return r.fields.get(U) == [] and all(r.fields.get(k_) == v_ for k_, v_ in before.items() if k_ != U)
+            # (a running count kept in the state may be set by the same method: what it is set to is the business of "count starts from the carried total")
+            return r.fields.get(U) == [] and all(r.fields.get(k_) == v_ for k_, v_ in before.items() if k_ not in (U, C))
         except (CannotEval, TypeError, ValueError, KeyError, ZeroDivisionError, RecursionError):
             return False
 
-    reset_calls = [c for c in stat_calls if not c.args and not c.keywords and sm[c.func.attr] not in (fb, ui, mu) and not in_loop(c) and g.dominated_by_nodes(Lh, [g.node_of(c)]) and is_reset(sm[c.func.attr])]
+    reset_calls = [c for c in stat_calls if not c.args and not c.keywords and sm[c.func.attr] not in updaters and not in_loop(c) and g.dominated_by_nodes(Lh, [g.node_of(c)]) and is_reset(sm[c.func.attr])]
     reset_fns = [sm[c.func.attr] for c in reset_calls]
     # who may write total_count / unprocessed
     for attr in (tot, U):
@@ -2178,9 +2402,13 @@ def run(chk):
         sel = [f_ for f_ in raw if which == "all" or state_only(res(f_)) == (which == "state")]
         facts = [res(f_) for f_ in sel]
 
-        def f(r, ops=5, emitted=False):
-            s = _sample(total_ops=ops)
-            env = {stats_var: r, batch: [s], cvar: (r.fields.get(tot) or 0) + ops}
+        def f(r, ops=5, emitted=False, **sample_fields):
+            s = _sample(total_ops=ops, **sample_fields)
+            env = {stats_var: r, batch: [s]}
+            if cvar is not None:
+                env[cvar] = (r.fields.get(tot) or 0) + ops
+            else:
+                r.fields[C] = (r.fields.get(tot) or 0) + ops
             env.update({nm_: s for nm_ in sampled})
             env.update({nm_: ([("value",)] if emitted else []) for nm_ in emit_lists})
             return all(bool(M.ev(f_, dict(env))) for f_ in facts)
@@ -2191,11 +2419,18 @@ def run(chk):
         return f
 
     def false_at_interval_zero(c):
+        """whenever the condition holds the elapsed interval is positive AT THAT POINT. For a pure predicate that is 'false on every state with interval 0'; a condition that itself hands
+        the sample to the state (`if current.add_sample(sample):`) is judged on the state it leaves behind, for a sample after the task's start and for one AT the start (elapsed 0)."""
         def f():
-            for r in variants(**{I: 0}):
-                for ops in (0, 5):
-                    if c(r, ops):
-                        return False, f"`{c.text}` holds at interval 0 for {show(r)}: the throughput read behind it divides by zero"
+            for ops in (0, 5):
+                for at in (12.0, None):
+                    for r in variants(**{I: 0}):
+                        before = show(r)
+                        t_ = at if at is not None or not isinstance(r.fields.get(S), (int, float)) else r.fields[S]
+                        holds = c(r, ops, absolute_time=t_ if t_ is not None else 10.0)
+                        after = r.fields.get(I)
+                        if holds and not (isinstance(after, (int, float)) and not isinstance(after, bool) and after > 0):
+                            return False, f"`{c.text}` holds at interval 0 for {before}: the throughput read behind it divides by zero"
             return True, f"`{c.text}` is false whenever interval == 0"
         return f
 
@@ -2255,7 +2490,7 @@ def run(chk):
     chk.ob("O6.3", "no other writer of the has-value flag", not other_flag, other_flag[0] if other_flag else TS, "")
     other_st = [n for n in writes(T_, ("self", stats_var)) if source.enclosing_func(n) is not mu and source.enclosing_func(n) is not None and source.enclosing_func(n).name not in ("__init__", "__post_init__")]
     chk.ob("O6.3", "no other writer of the per-task sample type", not other_st, other_st[0] if other_st else TS, "")
-    mcalls = [c for c in stat_calls if sm[c.func.attr] is mu]
+    mcalls = [c for c in stat_calls if sm[c.func.attr] is mu_site]
     ok = len(mcalls) == 1 and len(mu_calls) == 1 and mu_calls[0][0] is mcalls[0] and source.enclosing(mcalls[0], (ast.For, ast.While)) is L and _every_iteration_passes(g, L, [g.node_of(mcalls[0])])
     chk.ob("O6.3", "type updated from every sample", ok, mcalls[0] if mcalls else L, "")
     for e in emits:
@@ -2968,3 +3203,71 @@ _var("refactored: grouping by a dict comprehension over the set of tasks", "keep
 _var("defect in a refactored shape: comprehension grouping leaves out requests without operations", "break", "O6.1",
      [("        samples_per_task = {}\n        # first we group all samples by task (operation).\n        for sample in samples:\n" + _GROUP_OLD,
        "        # first we group all samples by task (operation).\n        samples_per_task = {k: [sample for sample in samples if sample.task == k and sample.total_ops] for k in {sample.task for sample in samples}}\n")])
+
+
+# ---- hardening round 4: the running count may live in an attribute of the per-task state (set / grown by state methods or by statements of the routine, moved into the carried total
+# by an argument-less finishing routine); the state methods called per sample may delegate (add_sample -> self.update_interval / self.maybe_update_sample_type): roles follow the data
+_IN_STATE_INIT = ("            self.total_count = 0\n", "            self.total_count = 0\n            self.pending_count = 0\n")
+_IN_STATE_FINISH = ("        def finish_bucket(self, new_total):\n            self.unprocessed = []\n            self.total_count = new_total\n",
+                    "        def finish_bucket(self):\n            self.unprocessed = []\n            self.total_count = self.pending_count\n")
+_IN_STATE_METHODS = '''        def begin_batch(self):
+            self.unprocessed = []
+            self.pending_count = self.total_count
+
+        def add_sample(self, sample):
+            self.maybe_update_sample_type(sample.sample_type)
+            self.pending_count += sample.total_ops
+            self.update_interval(sample.absolute_time)
+
+        def maybe_update_sample_type(self, current_sample_type):
+'''
+_IN_STATE_CALLER = [("        current.unprocessed = []\n        count = current.total_count\n", "        current.begin_batch()\n"),
+                    ("            current.maybe_update_sample_type(sample.sample_type)\n", "            current.add_sample(sample)\n"),
+                    ("            count += sample.total_ops\n            current.update_interval(sample.absolute_time)\n", ""),
+                    ((r"current\.finish_bucket\(count\)", 2), "current.finish_bucket()")]
+
+
+def _in_state(methods=_IN_STATE_METHODS, finish=_IN_STATE_FINISH[1]):
+    return [_IN_STATE_INIT, ("        def maybe_update_sample_type(self, current_sample_type):\n", methods), (_IN_STATE_FINISH[0], finish)] + _IN_STATE_CALLER
+
+
+_var("refactored: running count kept in the per-task state (begin_batch / add_sample / finish_bucket())", "keep", None, _in_state())
+_var("defect in a refactored shape: begin_batch starts the count from 0 instead of the carried total", "break", "O6.1",
+     _in_state(_IN_STATE_METHODS.replace("            self.pending_count = self.total_count\n", "            self.pending_count = 0\n")))
+_var("defect in a refactored shape: add_sample counts only samples of the task's current sample type", "break", "O6.1",
+     _in_state(_IN_STATE_METHODS.replace("            self.pending_count += sample.total_ops\n", "            if sample.sample_type == self.sample_type:\n                self.pending_count += sample.total_ops\n")))
+_var("defect in a refactored shape: add_sample adds the operations twice (once more through a helper)", "break", "O6.1",
+     _in_state(_IN_STATE_METHODS.replace("            self.update_interval(sample.absolute_time)\n", "            self.update_interval(sample.absolute_time)\n            self.pending_count += sample.total_ops\n")))
+_var("defect in a refactored shape: argument-less finish adds the running count to the carried total", "break", "O6.1",
+     _in_state(finish=_IN_STATE_FINISH[1].replace("self.total_count = self.pending_count", "self.total_count += self.pending_count")))
+_var("defect in a refactored shape: finish restarts the running count inside the batch", "break", "O6.1",
+     _in_state(finish=_IN_STATE_FINISH[1] + "            self.pending_count = 0\n"))
+_var("defect in a refactored shape: begin_batch moved into the sample loop", "break", "O6.1",
+     [_IN_STATE_INIT, ("        def maybe_update_sample_type(self, current_sample_type):\n", _IN_STATE_METHODS), _IN_STATE_FINISH,
+      ("        current.unprocessed = []\n        count = current.total_count\n", ""), ("            current.maybe_update_sample_type(sample.sample_type)\n", "            current.begin_batch()\n            current.add_sample(sample)\n")]
+     + _IN_STATE_CALLER[2:])
+_var("defect in a refactored shape: add_sample delegates the interval update with the time the request started", "break", "O6.2",
+     _in_state(_IN_STATE_METHODS.replace("self.update_interval(sample.absolute_time)", "self.update_interval(sample.absolute_time - sample.time_period)")))
+_var("defect in a refactored shape: add_sample lets the sample type fall (delegate bypassed)", "break", "O6.3",
+     _in_state(_IN_STATE_METHODS.replace("            self.maybe_update_sample_type(sample.sample_type)\n", "            self.sample_type = sample.sample_type\n")))
+_IN_STATE_INLINE = [_IN_STATE_INIT, _IN_STATE_FINISH, ("        count = current.total_count\n", "        current.pending_count = current.total_count\n"),
+                    ("            count += sample.total_ops\n", "            current.pending_count += sample.total_ops\n"), _IN_STATE_CALLER[3]]
+_var("refactored: running count kept in the per-task state, set and grown by statements of the routine", "keep", None, _IN_STATE_INLINE)
+_var("defect in a refactored shape: state-kept count replaced by, not grown by, the sample's operations", "break", "O6.1",
+     _IN_STATE_INLINE[:3] + [("            count += sample.total_ops\n", "            current.pending_count = sample.total_ops\n"), _IN_STATE_CALLER[3]])
+_var("refactored: per-sample updates behind one state method, count still a local", "keep", None,
+     [("            current.maybe_update_sample_type(sample.sample_type)\n", "            current.observe(sample)\n"), ("            current.update_interval(sample.absolute_time)\n", ""),
+      ("        def maybe_update_sample_type(self, current_sample_type):\n",
+       "        def observe(self, sample):\n            self.maybe_update_sample_type(sample.sample_type)\n            self.update_interval(sample.absolute_time)\n\n        def maybe_update_sample_type(self, current_sample_type):\n")])
+_IN_STATE_TEST = _IN_STATE_METHODS.replace("            self.update_interval(sample.absolute_time)\n", "            self.update_interval(sample.absolute_time)\n            return self.can_calculate_throughput()\n")
+
+
+def _in_state_test(methods):
+    return [_IN_STATE_INIT, ("        def maybe_update_sample_type(self, current_sample_type):\n", methods), _IN_STATE_FINISH, _IN_STATE_CALLER[0],
+            ("            current.maybe_update_sample_type(sample.sample_type)\n", ""), _IN_STATE_CALLER[2], _IN_STATE_CALLER[3],
+            ("            if current.can_calculate_throughput():\n", "            if current.add_sample(sample):\n")]
+
+
+_var("refactored: add_sample reports whether the bucket is complete and is the loop's condition", "keep", None, _in_state_test(_IN_STATE_TEST))
+_var("defect in a refactored shape: add_sample reports a complete bucket at elapsed time 0", "break", "O6.2",
+     _in_state_test(_IN_STATE_TEST.replace("            return self.can_calculate_throughput()\n", "            return self.interval >= self.bucket\n")))
